@@ -330,7 +330,10 @@ class OperandNode(ASTNode):
             value = self.value
             if value.startswith('"') and value.endswith('"'):
                 value = value[1:-1]
+            # backslashes and line breaks must be escaped in python source
+            value = value.replace('\\', '\\\\')
             value = value.replace('""', r'\"')
+            value = value.replace('\n', '\\n').replace('\r', '\\r')
             return f'"{value}"'
 
         else:
